@@ -466,6 +466,17 @@ func genPair(rng *rand.Rand, k int, big bool) (old, new *tree, desc string) {
 		oddNamesTree(new, rng)
 		tag("odd-names")
 	}
+	if k%13 == 12 {
+		// the new build has FEWER files than the old one, and its one patched file borrows blocks from the old file that
+		// sorts LAST (an index beyond the new build's file count)
+		old, new = newTree(), newTree()
+		for i := 0; i < 6; i++ {
+			old.Files[fmt.Sprintf("f%d.bin", i)] = randBytes(rng, 2*BS+rng.Intn(BS))
+		}
+		last := old.Files["f5.bin"]
+		new.Files["a-first.bin"] = append(append(append([]byte{}, last[:BS]...), randBytes(rng, 1000)...), last[BS:]...)
+		tags = []string{"shrinking-build"}
+	}
 	if k%17 == 16 { // identical builds
 		new = old.clone()
 		tags = []string{"identical-builds"}
